@@ -328,6 +328,9 @@ def check_match_tiling(c, repo):
                 ws.append((n, n.ast, n.ast.value, True))
         c.need(len(ws) == 1, 'match branch: expected one write to %s, found %d' % (store, len(ws)))
         n, k, arg, via_setter = ws[0]
+        for _ in range(3):          # a single-assignment local holding the rest (`pending = window[searcher.end:]`) is looked through
+            if isinstance(arg, ast.Name) and arg.id in al.single_assign and arg.id != W:
+                arg = al.single_assign[arg.id]
         sb2 = slice_bounds(arg)
         ok = sb2 is not None and is_name(arg.value, W) and sb2[1] is None and sb2[2] is None and sb2[0] is not None \
             and lin(sb2[0], f) == end_l
